@@ -254,3 +254,29 @@ fn expected_sync_direction(self_node_id: &EndpointId, other_node_id: &EndpointId
         SyncDirection::Connect
     }
 }
+
+/// Snapshot of a peer state (verification hook).
+#[cfg(feature = "verif")]
+#[derive(Debug, Clone, PartialEq, Eq)]
+pub struct VerifPeerState {
+    /// Origin if running
+    pub running: Option<Origin>,
+    /// resync flag
+    pub resync_requested: bool,
+}
+
+#[cfg(feature = "verif")]
+impl NamespaceStates {
+    /// Snapshot (verification hook).
+    pub fn verif_snapshot(&self, namespace: &NamespaceId, node: &EndpointId) -> Option<VerifPeerState> {
+        let ns = self.0.get(namespace)?;
+        let p = ns.nodes.get(node)?;
+        Some(VerifPeerState {
+            running: match &p.state {
+                SyncState::Idle => None,
+                SyncState::Running { origin, .. } => Some(origin.clone()),
+            },
+            resync_requested: p.resync_requested,
+        })
+    }
+}
